@@ -86,12 +86,13 @@ package readline
 //@   terminates
 //@   requires cmdok(rl) && !rl.Buffers.selected
 //@   let n0 = len(*rl.line)
-//@   ensures [P1P2-count1] old(len(rl.Iterations.times)) == 0 ==> killyank(rl, n0)
+//@   let b0 = kb(rl)
+//@   ensures [P1P2] killyank(rl, n0)
 //@   ensures [one-rune] old(len(rl.Iterations.times)) == 0 && n0 > 0 && old(kb(rl)) < n0 ==> len(*rl.line) == n0 - 1 && rl.cursor.pos == old(kb(rl))
-//@   loop 1 invariant cmdok(rl) && !rl.Buffers.selected && vii != 0 && (old(len(rl.Iterations.times)) == 0 ==> vii == 1) && i >= 1 && i <= max(vii, 0) + 1 && killed(rl) == old(killed(rl))
-//@   loop 1 invariant i == 1 ==> *rl.line == old(*rl.line) && rl.cursor.pos == old(kb(rl)) && len(cutBuf) == 0
-//@   loop 1 invariant i == 2 && vii == 1 ==> rl.cursor.pos == old(kb(rl)) && *rl.line == old(*rl.line)[:old(kb(rl))] + old(*rl.line)[old(kb(rl)) + 1:] && cutBuf == old(*rl.line)[old(kb(rl)):old(kb(rl)) + 1]
-//@   loop 1 decreases vii - i + 1
+//@   ensures [never-before-the-cursor] len(*rl.line) >= b0 && (*rl.line)[:b0] == old(*rl.line)[:b0]
+//@   loop 1 invariant cmdok(rl) && !rl.Buffers.selected && vii != 0 && (old(len(rl.Iterations.times)) == 0 ==> vii == 1) && i >= 1 && i <= max(vii, 0) + 1 && killed(rl) == old(killed(rl)) && rl.cursor.pos == b0 && b0 < n0
+//@   loop 1 invariant len(cutBuf) == i - 1 && b0 + i - 1 <= n0 && *rl.line == old(*rl.line)[:b0] + old(*rl.line)[b0 + i - 1:] && cutBuf == old(*rl.line)[b0:b0 + i - 1]
+//@   loop 1 decreases n0 - b0 - i + 1
 
 //@ func (*Shell).viPutBefore
 //@   props C16 C01
@@ -845,10 +846,15 @@ package readline
 //@   requires fullok(rl)
 //@   loop 1 invariant fullok0(rl)
 //@ func (*Shell).viRubout
-//@   props C01
+//@   props C16 C01
 //@   terminates
-//@   requires fullok(rl)
-//@   loop 1 invariant fullok0(rl)
+//@   requires fullok(rl) && cmdok(rl)
+//@   let n0 = len(*rl.line)
+//@   let p0 = rl.cursor.pos
+//@   ensures [P1P2] !old(rl.Buffers.selected) ==> killyank(rl, n0)
+//@   ensures [never-after-the-cursor] len(*rl.line) <= n0 && n0 - len(*rl.line) <= p0 && (*rl.line)[p0 - (n0 - len(*rl.line)):] == old(*rl.line)[p0:]
+//@   loop 1 invariant fullok0(rl) && cmdok(rl) && rl.Buffers.selected == old(rl.Buffers.selected) && killed(rl) == old(killed(rl)) && i >= 1 && 0 <= rl.cursor.pos && rl.cursor.pos == p0 - (i - 1) && len(cut) == i - 1
+//@   loop 1 invariant *rl.line == old(*rl.line)[:p0 - (i - 1)] + old(*rl.line)[p0:] && cut == old(*rl.line)[p0 - (i - 1):p0]
 //@ func (*Shell).yankPop
 //@   props C01
 //@   terminates
